@@ -92,6 +92,11 @@ func (cn *c01Net) addNode(i int, router string) *c01Node {
 	if router == "gossipsub" {
 		opts = append(opts, WithGossipSubParams(cn.par))
 	}
+	if cn.c.Chance(0.3) {
+		// a subscription filter that allows the two topics in play and limits an RPC to two subscriptions: the largest
+		// hello a neighbour can send
+		opts = append(opts, WithSubscriptionFilter(WrapLimitSubscriptionFilter(NewAllowlistSubscriptionFilter("t", "aux"), 2)))
+	}
 	nd, err := cn.n.NewNode(fmt.Sprintf("n%d", i), router, opts...)
 	if err != nil {
 		panic(err)
